@@ -8,6 +8,7 @@ From NV Require Import Base.Bytes C16.Tables C16.Model C16.Lemmas C16.LemmasTrk 
   C08.Model C08.Lemmas.
 From NV Require C06.Model C06.Lemmas C08.ModelSlice C08.LemmasSlice.
 From NV Require C17.Model C17.Lemmas C08.ModelXml C08.LemmasXml.
+From NV Require C08.ModelMat C08.LemmasMat.
 Import ListNotations.
 Open Scope Z_scope.
 
@@ -229,6 +230,109 @@ Theorem C08_gifti_nofinal_refuted :
      = Some [C17.Model.Chars [60]; C17.Model.Chars [97]; C17.Model.Chars [62]].
 Proof. exact C08.LemmasXml.nofinal_accepts_truncated. Qed.
 Print Assumptions C08_gifti_nofinal_refuted.
+
+(* ---- partial reads through ANY stream.  fileslice only does seek+read; `rd off len` is that
+   pair of calls on whatever delivers the file (Ok bytes | Err = it raised).  The contract
+   reader_below F rd: a read that does not raise returns a prefix of what the same read returns
+   on the complete file F.  Both stream behaviours satisfy it - a plain truncated file or a
+   silently ending stream (indexed_gzip) returns fewer bytes, a raising stream (bz2, zstd:
+   EOFError in read or already in seek) returns all the bytes or raises - and so does any
+   mixture.  Under it, for any heuristic, index, shape, item size, offset and order: the result
+   of the complete file, or an exception. *)
+Theorem C08_prefix_partial_read_any_stream :
+  forall F (rd : Z -> Z -> C06.Model.res (list Z)) (h : C06.Model.heuristic) ix shape w off o r,
+  C08.LemmasSlice.reader_below F rd ->
+  C06.Model.fileslice_h h F ix shape w off o = C06.Model.Ok r ->
+  C08.ModelSlice.fileslice_r rd h ix shape w off o = C06.Model.Ok r
+  \/ exists e, C08.ModelSlice.fileslice_r rd h ix shape w off o = C06.Model.Err e.
+Proof. intros F rd h ix shape w off o r RB. exact (C08.LemmasSlice.fileslice_reader F rd RB h ix shape w off o r). Qed.
+Print Assumptions C08_prefix_partial_read_any_stream.
+
+Theorem C08_prefix_partial_read_any_stream_numpy :
+  forall F (rd : Z -> Z -> C06.Model.res (list Z)) (h : C06.Model.heuristic) ix shape w off o c,
+  C08.LemmasSlice.reader_below F rd ->
+  C06.Lemmas.h_ok h -> 0 < w -> 0 <= off ->
+  C06.Model.canonical_slicers true ix shape = C06.Model.Ok c -> C06.Lemmas.ix_valid shape c ->
+  off + w * C06.Model.prod shape <= C06.Model.zlen F ->
+  C08.ModelSlice.fileslice_r rd h ix shape w off o = C06.Model.Ok (C06.Lemmas.result_of o F shape w off c)
+  \/ exists e, C08.ModelSlice.fileslice_r rd h ix shape w off o = C06.Model.Err e.
+Proof. intros F rd h ix shape w off o c RB. exact (C08.LemmasSlice.fileslice_reader_numpy F rd RB h ix shape w off o c). Qed.
+Print Assumptions C08_prefix_partial_read_any_stream_numpy.
+
+(* the two stream contracts are instances, and the reader form of fileslice is fileslice *)
+Theorem C08_stream_contracts : forall F n avail,
+  C08.LemmasSlice.reader_below F (C06.Model.fread_at (C06.Model.take n F))
+  /\ C08.LemmasSlice.reader_below F (C08.ModelSlice.rd_raising F avail)
+  /\ (forall o l a, C08.ModelSlice.rd_raising F avail o l = C06.Model.Ok a -> C06.Model.fread_at F o l = C06.Model.Ok a)
+  /\ (forall h ix shape w off o,
+        C08.ModelSlice.fileslice_r (C06.Model.fread_at F) h ix shape w off o = C06.Model.fileslice_h h F ix shape w off o).
+Proof.
+  intros F n avail. split; [apply C08.LemmasSlice.reader_below_plain|].
+  split; [apply C08.LemmasSlice.reader_below_raising|].
+  split; [apply C08.LemmasSlice.rd_raising_exact|]. intros. apply C08.LemmasSlice.fileslice_r_plain.
+Qed.
+Print Assumptions C08_stream_contracts.
+
+(* the reads of the sweep through a raising stream that can deliver `avail` bytes, as run by the
+   extracted model; with avail >= |F| it is the read of the complete file *)
+Theorem C08_prefix_partial_read_raising_sweep : forall F avail ix shape w off r,
+  C08.ModelSlice.partial_read F ix shape w off = Some r ->
+  (C08.ModelSlice.partial_read_r (C08.ModelSlice.rd_raising F avail) ix shape w off = Some r
+   \/ C08.ModelSlice.partial_read_r (C08.ModelSlice.rd_raising F avail) ix shape w off = None)
+  /\ (C06.Model.zlen F <= avail ->
+      C08.ModelSlice.partial_read_r (C08.ModelSlice.rd_raising F avail) ix shape w off = Some r).
+Proof.
+  intros F avail ix shape w off r H. split; [exact (C08.LemmasSlice.partial_read_raising F avail ix shape w off r H)|].
+  intros Ha. rewrite C08.LemmasSlice.partial_read_raising_complete by exact Ha. exact H.
+Qed.
+Print Assumptions C08_prefix_partial_read_raising_sweep.
+
+Example C08_partial_read_raising_nonvacuous :
+  let F := map Z.of_nat (seq 0 40) in
+  C08.ModelSlice.partial_read_r (C08.ModelSlice.rd_raising F 40) (C08.ModelSlice.idx_step 3) [2; 3; 4] 1 8
+    = Some ([2; 3; 2], [14; 15; 16; 17; 18; 19; 26; 27; 28; 29; 30; 31])
+  /\ C08.ModelSlice.partial_read_r (C08.ModelSlice.rd_raising F 31) (C08.ModelSlice.idx_step 3) [2; 3; 4] 1 8 = None
+  /\ C08.ModelSlice.partial_read_r (C08.ModelSlice.rd_raising F 31) C08.ModelSlice.idx_last [2; 3; 4] 1 8 = None
+  /\ C08.ModelSlice.partial_read_r (C08.ModelSlice.rd_raising F 32) C08.ModelSlice.idx_last [2; 3; 4] 1 8 = Some ([2; 3], [26; 27; 28; 29; 30; 31])
+  /\ C08.ModelSlice.rd_raising F 20 10 5 = C06.Model.Ok [10; 11; 12; 13; 14]
+  /\ C08.ModelSlice.rd_raising F 20 18 5 = C06.Model.Err C06.Model.EIO.
+Proof. cbv zeta. repeat split; vm_compute; reflexivity. Qed.
+
+(* ---- the SPM .mat member (it only carries the affine).  scipy.io.loadmat is an oracle with the
+   contract: on the complete file it gives the variables written; on a prefix it raises or gives
+   a leading part of them, values unchanged (MATLAB-4 records are self-delimiting and every read
+   of the reader is length-checked; measured at every cut: it loads only at record boundaries).
+   With the two float facts about the sign flip: loading the image with ANY prefix of the .mat
+   raises, or returns the voxel data of header+image with the affine of the complete .mat, or -
+   only for the EMPTY .mat, which nibabel by design treats like a missing one - with the affine
+   of the header.  The voxel values never change. *)
+Theorem C08_prefix_spm_mat :
+  forall (mx : Type) (flip from111 to111 : mx -> mx)
+         (loadmat : list Z -> option (list (C08.ModelMat.vname * mx))),
+  (forall m, flip (flip m) = m) -> (forall m, flip (from111 m) = from111 (flip m)) ->
+  forall (x_flip : bool) (aff hdr_affine : mx) (F : list Z),
+  loadmat F = Some (C08.ModelMat.spm_mat_vars mx flip from111 x_flip aff) ->
+  (forall P t r, F = P ++ t -> loadmat P = Some r ->
+     exists j, r = firstn j (C08.ModelMat.spm_mat_vars mx flip from111 x_flip aff)) ->
+  forall (D : Type) (data : option D) P t, F = P ++ t ->
+    C08.ModelMat.spm_load mx flip to111 loadmat data x_flip hdr_affine (Some P) = None
+    \/ (exists d, data = Some d /\
+          (C08.ModelMat.spm_load mx flip to111 loadmat data x_flip hdr_affine (Some P) = Some (d, to111 (from111 aff))
+           \/ (P = [] /\ C08.ModelMat.spm_load mx flip to111 loadmat data x_flip hdr_affine (Some P) = Some (d, hdr_affine)))).
+Proof.
+  intros mx flip from111 to111 loadmat H1 H2 x_flip aff hdr F HF HP D data P t E.
+  eapply C08.LemmasMat.spm_load_prefix; eassumption.
+Qed.
+Print Assumptions C08_prefix_spm_mat.
+
+(* the executable form of the measured contract, for the two records nibabel writes (M, mat):
+   class 0 raises | 1 header affine | 2 affine from 'mat' | 3 affine from 'M' (equal to 2 by the
+   theorem above) *)
+Theorem C08_spm_mat_cut_classes : forall s1 s2 n, 0 < s1 -> 0 < s2 ->
+  C08.ModelMat.spm_mat_class [C08.ModelMat.VM; C08.ModelMat.Vmat] [s1; s2] n =
+    if n =? 0 then 1 else if n =? s1 then 3 else if n =? s1 + s2 then 2 else 0.
+Proof. exact C08.LemmasMat.spm_mat_class_written. Qed.
+Print Assumptions C08_spm_mat_cut_classes.
 
 (* ---- non-vacuity *)
 Example C08_nonvacuous :
